@@ -2,7 +2,9 @@
 // Bloom filter (src/table/filter/standard_bloom, bit_array): no false negatives.  `Builder::set_with_hash(h)` switches on every bit
 // of the double-hashing probe sequence of h and never clears a bit; `StandardBloomFilterReader::contains_hash(h)` answers true
 // exactly when every bit of the same probe sequence is on - so a key that was added is never reported absent (a false negative
-// would hide a stored key from point reads).  Obligation C01.23
+// would hide a stored key from point reads).  The filter block header round trip (Builder::build / StandardBloomFilterReader::new), the full
+// filter writer (every registered key's hash is set) and FilterBlock::maybe_contains_hash close the chain from the table writer to
+// the point read.  Obligations C01.23, C01.32, C12.29
 use vstd::prelude::*;
 verus! {
 global size_of usize == 8;
@@ -55,7 +57,7 @@ impl BitArrayBuilder {
         requires idx < old(self).0@.len() * 8
         ensures final(self).0@.len() == old(self).0@.len(),
             // exactly that bit is switched on; no bit is ever cleared
-            forall|j: int| 0 <= j < old(self).0@.len() * 8 ==> bit(final(self).0@, j) == (#[trigger] bit(old(self).0@, j) || j == idx/*-*/)
+            forall|j: int| #![trigger bit(final(self).0@, j)] #![trigger bit(old(self).0@, j)] 0 <= j < old(self).0@.len() * 8 ==> bit(final(self).0@, j) == (bit(old(self).0@, j) || j == idx/*-*/)
     {
         let byte_idx = idx / 8;
 
@@ -233,6 +235,285 @@ proof fn lemma_no_false_negative(built: Seq<u8>, read: Seq<u8>, h: u64, m: usize
         assert(0 <= b < m) by { assert((h1_at(h, j) % (m as u64)) < m as u64); }
         assert(bit(built, b));
     }
+}
+
+// ---------------- filter block header: Builder::build <-> StandardBloomFilterReader::new ----------------
+#[derive(Debug)] enum Error { Io, InvalidHeader(u8), InvalidTag(u8) }
+const MAGIC_BYTES: [u8; 4] = [b'L', b'S', b'M', 3];
+pub uninterp spec fn le64(x: u64) -> Seq<u8>;
+pub uninterp spec fn un_le64(b: Seq<u8>) -> u64;
+/// fixed-width little-endian coding (byteorder): invertible
+#[verifier::external_body]
+pub broadcast proof fn axiom_le64() ensures forall|x: u64| #![trigger le64(x)] le64(x).len() == 8 && un_le64(le64(x)) == x {}
+/// Vec<u8> as io::Write with byteorder: appends, never fails (the `expect`s of build are proved)
+trait VecWrite { 
+    fn write_all_(&mut self, b: &[u8]) -> (r: Result<(), Error>);
+    fn write_u8_(&mut self, x: u8) -> (r: Result<(), Error>);
+    fn write_u64_le(&mut self, x: u64) -> (r: Result<(), Error>);
+}
+impl VecWrite for Vec<u8> {
+    #[verifier::external_body] fn write_all_(&mut self, b: &[u8]) -> (r: Result<(), Error>) ensures r is Ok, final(self)@ == old(self)@ + b@ { unimplemented!() }
+    #[verifier::external_body] fn write_u8_(&mut self, x: u8) -> (r: Result<(), Error>) ensures r is Ok, final(self)@ == old(self)@ + seq![x] { unimplemented!() }
+    #[verifier::external_body] fn write_u64_le(&mut self, x: u64) -> (r: Result<(), Error>) ensures r is Ok, final(self)@ == old(self)@ + le64(x) { unimplemented!() }
+}
+//@ FROM src/table/filter/mod.rs :: - :: enum FilterType
+/*+*/#[derive(Copy, Clone, PartialEq, Eq, Structural)]/*-*/
+enum FilterType {
+    StandardBloom,
+    BlockedBloom,
+}
+//@ END
+impl FilterType {
+//@ FROM src/table/filter/mod.rs :: impl TryFrom < u8 > for FilterType :: fn try_from
+//@ SUBST `Result < Self , Self :: Error >` ==> `Result<Self, Error>`
+//@ SUBST `crate :: Error :: InvalidTag ( ( "FilterType" , value ) )` ==> `Error::InvalidTag(value)`
+    fn try_from(value: u8) -> /*+*/(r:/*-*/ Result<Self, Error>/*+*/)
+        ensures value == 0 ==> r == Ok::<FilterType, Error>(FilterType::StandardBloom), value == 1 ==> r == Ok::<FilterType, Error>(FilterType::BlockedBloom), value > 1 ==> r is Err/*-*/
+    {
+        match value {
+            0 => Ok(Self::StandardBloom),
+            1 => Ok(Self::BlockedBloom),
+            _ => Err(Error::InvalidTag(value)),
+        }
+    }
+//@ END
+}
+struct U8From {}
+impl U8From {
+//@ FROM src/table/filter/mod.rs :: impl From < FilterType > for u8 :: fn from
+//@ SUBST `-> Self` ==> `-> u8`
+    fn from(value: FilterType) -> /*+*/(r:/*-*/ u8/*+*/) ensures r == (match value { FilterType::StandardBloom => 0u8, FilterType::BlockedBloom => 1u8 })/*-*/
+    {
+        match value {
+            FilterType::StandardBloom => 0,
+            FilterType::BlockedBloom => 1,
+        }
+    }
+//@ END
+}
+/// what Builder::build produces: magic, filter type, hash type, m, k, then the bit array
+spec fn filter_image(m: usize, k: usize, bits: Seq<u8>) -> Seq<u8> { MAGIC_BYTES@ + seq![0u8] + seq![0u8] + le64(m as u64) + le64(k as u64) + bits }
+
+impl Builder {
+//@ FROM src/table/filter/standard_bloom/builder.rs :: impl Builder :: fn build :: OBL C01.32, C12.29
+//@ SUBST `v . write_all ( $1 ) . expect ( "should not fail" ) ;` ==> `v.write_all_($1).expect("should not fail");`
+//@ SUBST `v . write_u8 ( FilterType :: StandardBloom . into ( ) ) . expect ( "should not fail" ) ;` ==> `v.write_u8_(U8From::from(FilterType::StandardBloom)).expect("should not fail");`
+//@ SUBST `v . write_u8 ( 0 ) . expect ( "should not fail" ) ;` ==> `v.write_u8_(0).expect("should not fail");`
+//@ SUBST `v . write_u64 :: < LittleEndian > ( $1 ) . expect ( "should not fail" ) ;` ==> `v.write_u64_le($1).expect("should not fail");`
+//@ SUBST `vec ! [ ]` ==> `Vec::new()`
+    fn build(&self) -> /*+*/(v:/*-*/ Vec<u8>/*+*/)
+        ensures v@ == filter_image(self.m, self.k, self.inner.0@)/*-*/
+    {
+        let mut v = Vec::new();
+
+        // Write header
+        v.write_all_(&MAGIC_BYTES).expect("should not fail");
+
+        // NOTE: Filter type
+        v.write_u8_(U8From::from(FilterType::StandardBloom)).expect("should not fail");
+
+        // NOTE: Hash type (unused)
+        v.write_u8_(0).expect("should not fail");
+
+        v.write_u64_le(self.m as u64).expect("should not fail");
+        v.write_u64_le(self.k as u64).expect("should not fail");
+        v.write_all_(self.inner.bytes()).expect("should not fail");
+        /*+*/proof { assert(v@ =~= filter_image(self.m, self.k, self.inner.0@)); }/*-*/
+
+        v
+    }
+//@ END
+}
+
+/// std::io::Cursor<&[u8]> with byteorder (in-memory: a read succeeds exactly when the bytes are there)
+struct Cursor { ghost data: Seq<u8>, ghost pos: int }
+impl Cursor {
+    #[verifier::external_body] fn new(s: &[u8]) -> (r: Self) ensures r.data == s@, r.pos == 0 { unimplemented!() }
+    #[verifier::external_body]
+    fn read_exact(&mut self, buf: &mut [u8]) -> (r: Result<(), Error>)
+        ensures final(self).data == old(self).data, final(buf)@.len() == old(buf)@.len(),
+            0 <= old(self).pos && old(self).pos + old(buf)@.len() <= old(self).data.len() ==> r is Ok && final(buf)@ == old(self).data.subrange(old(self).pos, old(self).pos + old(buf)@.len()) && final(self).pos == old(self).pos + old(buf)@.len()
+    { unimplemented!() }
+    #[verifier::external_body]
+    fn read_u8(&mut self) -> (r: Result<u8, Error>)
+        ensures final(self).data == old(self).data, 0 <= old(self).pos < old(self).data.len() ==> r is Ok && r->Ok_0 == old(self).data[old(self).pos] && final(self).pos == old(self).pos + 1
+    { unimplemented!() }
+    #[verifier::external_body]
+    fn read_u64_le(&mut self) -> (r: Result<u64, Error>)
+        ensures final(self).data == old(self).data, 0 <= old(self).pos && old(self).pos + 8 <= old(self).data.len() ==> r is Ok && r->Ok_0 == un_le64(old(self).data.subrange(old(self).pos, old(self).pos + 8)) && final(self).pos == old(self).pos + 8
+    { unimplemented!() }
+    #[verifier::external_body] fn position(&self) -> (r: u64) ensures r == self.pos { unimplemented!() }
+}
+/// `slice.get(offset..).expect(..)`: the bound is proved
+#[verifier::external_body]
+fn tail_from<'a>(s: &'a [u8], from: usize) -> (r: &'a [u8]) requires from <= s@.len() ensures r@ == s@.skip(from as int) { unimplemented!() }
+/// `assert_eq!(a, b, ..)`: execution continues only if equal
+#[verifier::external_body] fn rt_check(c: bool) ensures c { assert!(c); }
+impl<'a> BitArrayReader<'a> {
+//@ FROM src/table/filter/bit_array/reader.rs :: impl < 'a > BitArrayReader < 'a > :: fn new
+    fn new(bytes: &'a [u8]) -> /*+*/(r:/*-*/ Self/*+*/) ensures r.0@ == bytes@/*-*/ {
+        Self(bytes)
+    }
+//@ END
+}
+impl<'a> StandardBloomFilterReader<'a> {
+//@ FROM src/table/filter/standard_bloom/mod.rs :: impl < 'a > StandardBloomFilterReader < 'a > :: fn new :: OBL C01.32, C12.29
+//@ SUBST `crate :: Result < Self >` ==> `Result<Self, Error>`
+//@ SUBST `[ 0u8 ; MAGIC_BYTES . len ( ) ]` ==> `[0u8; 4]`
+//@ SUBST `crate :: Error :: InvalidHeader ( "BloomFilter" )` ==> `Error::InvalidHeader(0)`
+//@ SUBST `assert_eq ! ( FilterType :: StandardBloom , filter_type , $1 ) ;` ==> `rt_check(FilterType::StandardBloom == filter_type);`
+//@ SUBST `assert_eq ! ( 0 , hash_type , "Invalid bloom hash type" ) ;` ==> `rt_check(0 == hash_type);`
+//@ SUBST `read_u64 :: < LittleEndian >` ==> `read_u64_le`
+//@ SUBST `slice . get ( offset .. ) . expect ( "should be in bounds" )` ==> `tail_from(slice, offset)`
+    fn new(slice: &'a [u8]/*+*/, Ghost(f): Ghost<(usize, usize, Seq<u8>)>/*-*/) -> /*+*/(r:/*-*/ Result<Self, Error>/*+*/)
+        requires slice@ == filter_image(f.0, f.1, f.2)
+        // what the builder wrote is what the reader sees: m, k and the bit array
+        ensures r is Ok && r->Ok_0.m == f.0 && r->Ok_0.k == f.1 && r->Ok_0.inner.0@ == f.2/*-*/
+    {
+        /*+*/proof {
+            broadcast use axiom_le64;
+            let d = slice@;
+            assert(MAGIC_BYTES@.len() == 4);
+            assert(d.subrange(0, 4) =~= MAGIC_BYTES@);
+            assert(d[4] == 0u8 && d[5] == 0u8);
+            assert(d.subrange(6, 14) =~= le64(f.0 as u64));
+            assert(d.subrange(14, 22) =~= le64(f.1 as u64));
+            assert(d.skip(22) =~= f.2);
+        }/*-*/
+        let mut reader = Cursor::new(slice);
+
+        // Check header
+        let mut magic = [0u8; 4];
+        reader.read_exact(&mut magic)?;
+
+        if magic != MAGIC_BYTES {
+            /*+*/proof { assert(magic@ =~= MAGIC_BYTES@); }/*-*/
+            return Err(Error::InvalidHeader(0));
+        }
+
+        // NOTE: Filter type
+        let filter_type = reader.read_u8()?;
+        let filter_type = FilterType::try_from(filter_type)?;
+        rt_check(FilterType::StandardBloom == filter_type);
+
+        // NOTE: Hash type (unused)
+        let hash_type = reader.read_u8()?;
+        rt_check(0 == hash_type);
+
+        let m = reader.read_u64_le()? as usize;
+
+        let k = reader.read_u64_le()? as usize;
+
+        let offset = reader.position() as usize;
+
+        Ok(Self {
+            k,
+            m,
+            inner: BitArrayReader::new(tail_from(slice, offset)),
+        })
+    }
+//@ END
+}
+
+// ---------------- full filter writer and filter block ----------------
+/// crate::hash::hash64 (xxh3) of the key bytes
+uninterp spec fn hash64_spec(key: Seq<u8>) -> u64;
+#[verifier::external_body] struct UserKey { p: u8 }
+impl View for UserKey { type V = Seq<u8>; uninterp spec fn view(&self) -> Seq<u8>; }
+impl Builder {
+    /// Builder::get_hash(key) = crate::hash::hash64(key)
+    #[verifier::external_body] fn get_hash(key: &UserKey) -> (r: u64) ensures r == hash64_spec(key@) { unimplemented!() }
+}
+/// BloomConstructionPolicy::init(n): Builder::with_fp_rate / with_bpk (float arithmetic, not verified): a well-formed empty builder
+struct BloomConstructionPolicy { p: u8 }
+impl BloomConstructionPolicy {
+    #[verifier::external_body] fn init(&self, n: usize) -> (r: Builder) ensures r.wf() { unimplemented!() }
+}
+//@ FROM src/table/writer/filter/full.rs :: - :: struct FullFilterWriter
+struct FullFilterWriter {
+    bloom_hash_buffer: Vec<u64>,
+
+    bloom_policy: BloomConstructionPolicy,
+}
+//@ END
+/// every probe bit of hash h is on
+spec fn holds(bits: Seq<u8>, h: u64, m: usize, k: usize) -> bool { forall|j: nat| j < k ==> bit(bits, #[trigger] probe(h, j, m)) }
+proof fn lemma_holds_mono(a: Seq<u8>, b: Seq<u8>, h: u64, m: usize, k: usize)
+    requires holds(a, h, m, k), m > 0, m <= a.len() * 8, a.len() == b.len(), forall|x: int| 0 <= x < a.len() * 8 && #[trigger] bit(a, x) ==> bit(b, x)
+    ensures holds(b, h, m, k)
+{
+    assert forall|j: nat| j < k implies bit(b, #[trigger] probe(h, j, m)) by {
+        let x = probe(h, j, m);
+        assert(0 <= x < m) by { assert((h1_at(h, j) % (m as u64)) < m as u64); }
+        assert(bit(a, x));
+    }
+}
+impl FullFilterWriter {
+//@ FROM src/table/writer/filter/full.rs :: FilterWriter < W > for FullFilterWriter :: fn register_key :: OBL C01.32
+//@ SUBST `crate :: Result < ( ) >` ==> `Result<(), Error>`
+    fn register_key(&mut self, key: &UserKey) -> /*+*/(r:/*-*/ Result<(), Error>/*+*/)
+        ensures r is Ok, final(self).bloom_hash_buffer@ == old(self).bloom_hash_buffer@.push(hash64_spec(key@))/*-*/
+    {
+        self.bloom_hash_buffer.push(Builder::get_hash(key));
+        Ok(())
+    }
+//@ END
+}
+//@ WRAPPER_BEGIN
+/// wrapper (generated) around the statements of FullFilterWriter::finish that build the filter from the buffered hashes
+fn build_filter(bloom_hash_buffer: Vec<u64>, bloom_policy: &BloomConstructionPolicy, n: usize) -> (filter_bytes: Vec<u8>)
+    ensures exists|m: usize, k: usize, bits: Seq<u8>| #![trigger filter_image(m, k, bits)] filter_bytes@ == filter_image(m, k, bits) && m > 0 && m <= bits.len() * 8
+        // every registered hash is in the filter
+        && forall|i: int| 0 <= i < bloom_hash_buffer@.len() ==> holds(bits, #[trigger] bloom_hash_buffer@[i], m, k)
+{
+//@ FROM src/table/writer/filter/full.rs :: FilterWriter < W > for FullFilterWriter :: fn finish :: BLOCK 1 `} else {` :: STMTS `let filter_bytes =` .. `let filter_bytes =` :: OBL C01.32
+//@ SUBST `self . bloom_policy . init ( n )` ==> `bloom_policy.init(n)`
+//@ SUBST `for hash in self . bloom_hash_buffer {` ==> `for hash in it__: bloom_hash_buffer {`
+    /*+*/let ghost hs = bloom_hash_buffer@; let ghost mut gm: usize = 0; let ghost mut gk: usize = 0; let ghost mut gbits: Seq<u8> = Seq::empty();/*-*/
+    let filter_bytes = {
+        let mut builder = bloom_policy.init(n);
+
+        for hash in it__: bloom_hash_buffer
+            /*+*/invariant builder.wf(), it__.seq() == hs,
+                forall|i: int| 0 <= i < it__.index@ ==> holds(builder.inner.0@, #[trigger] hs[i], builder.m, builder.k),/*-*/
+        {
+            /*+*/let ghost b0 = builder.inner.0@; let ghost m = builder.m; let ghost k = builder.k;/*-*/
+            builder.set_with_hash(hash);
+            /*+*/proof {
+                assert(hash == hs[it__.index@ as int]);
+                assert forall|i: int| 0 <= i < it__.index@ + 1 implies holds(builder.inner.0@, #[trigger] hs[i], builder.m, builder.k) by {
+                    if i < it__.index@ { lemma_holds_mono(b0, builder.inner.0@, hs[i], m, k); }
+                }
+            }/*-*/
+        }
+
+        /*+*/proof { gm = builder.m; gk = builder.k; gbits = builder.inner.0@; }/*-*/
+        builder.build()
+    };
+//@ END
+    proof { assert(filter_bytes@ == filter_image(gm, gk, gbits)); }
+    filter_bytes
+}
+//@ WRAPPER_END
+
+struct Slice { v: Vec<u8> }
+impl Slice { fn as_bytes(&self) -> (r: &[u8]) ensures r@ == self.v@ { self.v.as_slice() } }
+struct Block { data: Slice }
+//@ FROM src/table/filter/block.rs :: - :: struct FilterBlock
+struct FilterBlock(Block);
+//@ END
+impl FilterBlock {
+//@ FROM src/table/filter/block.rs :: impl FilterBlock :: fn maybe_contains_hash :: OBL C01.32
+//@ SUBST `crate :: Result < bool >` ==> `Result<bool, Error>`
+//@ SUBST `StandardBloomFilterReader :: new ( & self . 0 . data ) ? . contains_hash ( hash )` ==> `StandardBloomFilterReader::new(self.0.data.as_bytes(), Ghost(f))?.contains_hash(hash, Ghost(hash))`
+    fn maybe_contains_hash(&self, hash: u64/*+*/, Ghost(f): Ghost<(usize, usize, Seq<u8>)>/*-*/) -> /*+*/(r:/*-*/ Result<bool, Error>/*+*/)
+        requires self.0.data.v@ == filter_image(f.0, f.1, f.2), f.0 > 0, f.0 <= f.2.len() * 8
+        // a filter block written by the full filter writer answers true for every hash whose probe bits are on - no false negatives
+        ensures r is Ok && r->Ok_0 == holds(f.2, hash, f.0, f.1)/*-*/
+    {
+        Ok(StandardBloomFilterReader::new(self.0.data.as_bytes(), Ghost(f))?.contains_hash(hash, Ghost(hash)))
+    }
+//@ END
 }
 }
 fn main() {}
